@@ -132,6 +132,7 @@ void wake(int task);
 bool isBlocked(int task);
 const char* blockedWhat(int task);
 const void* blockedObj(int task);
+int64_t blockedDeadline(int task);   // deadline (monotonic ns) of a blocked task, -1 if it waits without one or is not blocked
 int  numTasks();
 const char* taskName(int task);
 void setTaskNote(const char* note);   // harness annotation for diagnostics ("client1:join f0")
@@ -153,5 +154,6 @@ void memSetIgnoreBefore(uint64_t mark);  // leak check ignores blocks allocated 
 
 // registration of per-run reset hooks of stub modules
 void addResetHook(void (*fn)());
+void addEndHook(void (*fn)());     // called on the host right after a run ends (normally or abandoned)
 
 } // namespace sim
